@@ -68,31 +68,38 @@ def recursive_tag_functions(facts):
     return out
 
 
-def local_root(ctx, e, depth=0):
-    """the pattern-bound local an expression is derived from (through refs, derefs, iter adaptors, closure params)"""
-    if e is None or depth > 12:
+def local_root(ctx, e, depth=0, stop=()):
+    """the pattern-bound local an expression is derived from (through refs, derefs, iter adaptors, closure params and
+    the variables of a `for` loop); locals in `stop` (the pattern bindings of interest) end the search"""
+    if e is None or depth > 16:
         return None
     k = e['k']
     if k in ('addr', 'unary', 'cast'):
-        return local_root(ctx, e['e'], depth + 1)
+        return local_root(ctx, e['e'], depth + 1, stop)
     if k == 'mcall':
-        return local_root(ctx, e['recv'], depth + 1)
+        return local_root(ctx, e['recv'], depth + 1, stop)
     if k == 'call' and e['args']:
-        return local_root(ctx, e['args'][0], depth + 1)
+        return local_root(ctx, e['args'][0], depth + 1, stop)
     if k == 'field':
-        return local_root(ctx, e['base'], depth + 1)
+        return local_root(ctx, e['base'], depth + 1, stop)
     if k == 'path' and e['p'].get('res') == 'local':
         hid = e['p']['hid']
+        if hid in stop:
+            return hid
         src = ctx.bind.get(hid)
+        if src and src[0] == 'arm' and stop:
+            # a loop variable (`for (l, r) in a.iter().zip(b.iter())`) or a binding of an iterator: follow the scrutinee
+            r = local_root(ctx, src[1], depth + 1, stop)
+            return r or hid
         if src and src[0] == 'cparam':
             for parent, lab in reversed(src[3]):
                 if parent['k'] == 'mcall':
-                    r = local_root(ctx, parent['recv'], depth + 1)
+                    r = local_root(ctx, parent['recv'], depth + 1, stop)
                     if r:
                         return r
             return None
         if src and src[0] == 'let':
-            r = local_root(ctx, src[1], depth + 1)
+            r = local_root(ctx, src[1], depth + 1, stop)
             return r or hid
         return hid
     return None
@@ -122,14 +129,15 @@ def tag_rec(c, facts, R, prefix_desc=''):
                 pats = [e['pat']]
             for p in pats:
                 for hid, path in pattern_bindings(p):
-                    if path:
+                    if path and path[0][0] in nested:
                         # path = ((Variant, field), (FuncTag, field))...: keep outermost Tag variant + innermost field
+                        # (bindings under Some(..)/Continue(..) of desugared loops and `?` are not Tag variants)
                         bound[hid] = (path[0][0], path[-1][1])
         covered = {}
         for e, anc in hir_walk(fn.hir['body']):
             if e['k'] == 'call' and callee_id(e) == fn.id:
                 for a in e['args']:
-                    r = local_root(ctx, a)
+                    r = local_root(ctx, a, stop=set(bound))
                     if r in bound:
                         v, fld = bound[r]
                         covered.setdefault(v, set()).add(fld)
@@ -235,6 +243,27 @@ def occurs_before_union(c, facts, R):
                   'unify(): a UnionFind::union call is not dominated by the false edge of an occurs() check (%s:%s)' % (fn.file, ut['ln']))
 
 
+def tuple_arm_guard(parent, lab):
+    """`match (&left, &right) { (Tag::Var(_), _) => .. }`: the locals proven Tag::Var by the arm the expression sits in
+    (a set of hids), or None when the ancestor is not such an arm"""
+    if parent['k'] != 'match' or lab[0] != 'arm' or parent['scrut']['k'] != 'tup':
+        return None
+    pat = lab[1]['pat']
+    while pat['k'] == 'ref':
+        pat = pat['p']
+    if pat['k'] != 'tuple':
+        return None
+    out = set()
+    for sub, el in zip(pat['subs'], parent['scrut']['es']):
+        if 'Var' in pat_variants(sub):
+            g = el
+            while g['k'] in ('addr', 'unary'):
+                g = g['e']
+            if g['k'] == 'path' and g['p'].get('res') == 'local':
+                out.add(g['p']['hid'])
+    return out or None
+
+
 def var_first(c, facts, R):
     """both union calls pass as first argument the operand proven Tag::Var by the guarding `if let`"""
     fn = c.anchor(R, 'oal_compiler::inference::unify::unify')
@@ -253,6 +282,10 @@ def var_first(c, facts, R):
                     while g['k'] in ('addr', 'unary'):
                         g = g['e']
                     guard = g['p']['hid'] if g['k'] == 'path' and g['p'].get('res') == 'local' else None
+                    break
+                g2 = tuple_arm_guard(parent, lab)
+                if g2 is not None:
+                    guard = g2 if hid not in g2 else hid
                     break
             inst = {'union_line': e['ln'], 'first_arg_is_guarded_var': hid is not None and hid == guard}
             if hid is not None and hid == guard:
@@ -290,11 +323,48 @@ def var_first(c, facts, R):
                             g = g['e']
                         guard = g['p']['hid'] if g['k'] == 'path' and g['p'].get('res') == 'local' else None
                         break
+                    g2 = tuple_arm_guard(parent, lab)
+                    if g2 is not None:
+                        guard = hid if hid in g2 else None
+                        break
                 if hid is not None and hid == guard:
                     c.ok(R, {'helper': h.qname, 'call_line': e['ln'], 'variable_argument_is_guarded_var': True})
                 else:
                     c.bad(R, 'union-first-arg-not-var:%s:%d' % (h.qname.split('::')[-1], n), 'unify() hands %s an operand as "the variable" that the guarding pattern did not prove to be Tag::Var (%s:%s)' % (h.qname, fn.file, e['ln']))
     c.floor(R, 'union call sites (HIR)', n, 2)
+
+
+def zip_on_equal_length_edge_mir(fn, line):
+    """MIR form of ARITY (any way the test is written, e.g. an early `return Err` on mismatch): the zip call is dominated
+    by the equal edge of a comparison of two len() results and cannot be reached from the unequal edge"""
+    import mirflow as MF
+    import pathrules as P
+    idx = MF.defs_index(fn)
+    zips = [(b, t) for b, t in fn.calls() if callee_of(t) and P.strip(callee_of(t)['def']).split('::')[-1] == 'zip' and t.get('ln') == line]
+    if not zips:
+        zips = [(b, t) for b, t in fn.calls() if callee_of(t) and P.strip(callee_of(t)['def']).split('::')[-1] == 'zip']
+    for zb, zt in zips:
+        for b, blk in fn.blocks():
+            sw = blk['term']
+            if sw['t'] != 'switch' or 'l' not in sw['discr']:
+                continue
+            cmp_ = [s for s in blk['stmts'] if s['s'] == 'assign' and s['place']['l'] == sw['discr']['l'] and s['rv']['r'] == 'binop' and s['rv']['op'] in ('Eq', 'Ne')]
+            if not cmp_:
+                continue
+            rv = cmp_[0]['rv']
+            lens = 0
+            for o in (rv['a'], rv['b']):
+                if 'l' in o and any(P.strip(n).split('::')[-1] == 'len' for n, _, _ in MF.slice_back(fn, o['l'], idx, through_calls=False)['calls']):
+                    lens += 1
+            if lens != 2:
+                continue
+            zero = [x for v, x in sw['targets'] if v == '0']
+            if not zero:
+                continue
+            equal, unequal = (sw['otherwise'], zero[0]) if rv['op'] == 'Eq' else (zero[0], sw['otherwise'])
+            if fn.dominates(equal, zb) and zb not in fn.reachable_from(unequal, avoid=[equal]):
+                return True
+    return False
 
 
 def arity(c, facts, R):
@@ -313,6 +383,8 @@ def arity(c, facts, R):
                         equal_edge = (cnd['op'] == 'Ne' and lab[0] == 'else') or (cnd['op'] == 'Eq' and lab[0] == 'then')
                         if both_len and equal_edge:
                             ok = True
+            if not ok:
+                ok = zip_on_equal_length_edge_mir(fn, e['ln'])
             if ok:
                 c.ok(R, {'zip_line': e['ln'], 'on_equal_length_edge': True})
             else:
